@@ -6,6 +6,7 @@ package main
 
 import (
 	"fmt"
+	"time"
 )
 
 type truncSeed struct {
@@ -103,6 +104,7 @@ func init() {
 		cref = c
 		c.Rule("seed streams = every entropy codec and every transform (with HUFFMAN) x checksum {0,32,64} x 0..5 blocks of 1 KiB (empty stream, last block full or partial), with and without the size hint in the header, x headerless; for each seed EVERY cut position 0..len-1 is decoded with jobs 1,2,3 (coverage.cuts_tried counts them); larger seeds (64 KiB - 1 MiB) are cut within +-16 bytes of every header field and block boundary and at every stride-th byte (declared non-exhaustive). Oracle: a non-EOF error is returned before any io.EOF and the delivered bytes are a prefix of the original. One evaluation = one (seed, cut) decode (plus one per seed)")
 		const B = 1024
+		fam.Timeout = 120 * time.Minute // one case = every cut of one seed
 		fam.Each(c, 0, func(emit func(truncSeed)) {
 			type codec struct{ t, e string }
 			var codecs []codec
